@@ -81,7 +81,9 @@ func (pj *internalParsedJson) parseMessage(msg []byte, ndjson bool) (err error) 
 				err = errors.New("Bad parsing while executing stage 2")
 				// Keep consuming...
 				if !done {
+					verifPipe(pj, verifEvDrainStart, 0, indexChan{})
 					for idx := range pj.indexChans {
+						verifPipe(pj, verifEvDrainReceived, 0, idx)
 						if idx.index == -1 {
 							break
 						}
@@ -96,7 +98,9 @@ func (pj *internalParsedJson) parseMessage(msg []byte, ndjson bool) (err error) 
 	} else {
 		if !pj.findStructuralIndices() {
 			// drain the channel until empty
+			verifPipe(pj, verifEvDrainStart, 0, indexChan{})
 			for idx := range pj.indexChans {
+				verifPipe(pj, verifEvDrainReceived, 0, idx)
 				if idx.index == -1 {
 					break
 				}
@@ -108,6 +112,7 @@ func (pj *internalParsedJson) parseMessage(msg []byte, ndjson bool) (err error) 
 			for {
 				select {
 				case idx := <-pj.indexChans:
+					verifPipe(pj, verifEvDrainReceived, 0, idx)
 					if idx.index == -1 {
 						return errors.New("Bad parsing while executing stage 2")
 					}
